@@ -142,6 +142,18 @@ func vary(rt *rapid.T, label string, s []byte, sameLen, eqBytes bool) []byte {
 				}
 				i += lens[k]
 			} else {
+				if k < n && lens[k] == 1 && i < len(s) && s[i] >= utf8.RuneSelf {
+					// an invalid byte is shared here as well: the library marks a
+					// dangling one with a '?' guard, which adds a character to one
+					// instantiation only - visible when the text is later cut or
+					// padded as a whole (a redactable reached by reflection)
+					out = append(out, s[i])
+					i += lens[k]
+					continue
+				}
+				if k < n {
+					i += lens[k]
+				}
 				r = varyRunes[rapid.IntRange(0, len(varyRunes)-1).Draw(rt, label+"_v")]
 			}
 			out = append(out, string(r)...)
